@@ -535,32 +535,107 @@ theorem reapplied_after_status_conflict_witness :
 
 /-! ## daemons and timers: every invocation delivers its own patch, once -/
 
-/-- Per-invocation patch ownership. Along any run of invocations of a daemon/timer — whatever the other
-    handlers of the object accumulate meanwhile, they are not even an input here: each daemon has a
-    `Patch` of its own from `spawn_daemons` on — every merge request of an invocation carries exactly
-    the fields THIS invocation accumulated (split by the subresource), nothing more, nothing less. -/
-theorem daemon_invocation_owns_its_patch (sub : Bool) :
-    ∀ (cs : List CycleIn) (mem : Option (List Fn)) (s : Server) (c : CycleIn) (res : Result),
-      (c, res) ∈ (daemonRun sub mem s cs).1 →
-      ∀ r ∈ res.reqs,
-        (r.kind = .mergeBody → r.payload = .merge (bodyPart sub c.fields)) ∧
-        (r.kind = .mergeStatus → ∃ v, lookup "status" c.fields = some v ∧ r.payload = .merge [("status", v)]) := by
-  intro cs
-  induction cs with
-  | nil => intro mem s c res h; simp [daemonRun] at h
-  | cons c0 cs ih =>
-    intro mem s c res h r hr
-    simp only [daemonRun, List.mem_cons, Prod.mk.injEq] at h
-    rcases h with ⟨rfl, rfl⟩ | h
-    · unfold daemonCycle cycleOf at hr
-      simp only at hr
-      split at hr
-      · cases hr
-      · have hrt := routed_by_subresource sub (nextPatch mem c.fields c.fns) c.orig c.env s r hr
-        exact ⟨fun hk => (hrt.1 hk).1, fun hk => (hrt.2.1 hk).2⟩
-    · exact ih _ _ c res h r hr
+/-- Patch ownership, as an invariant of the interleaving. Several daemons/timers of one object write to
+    and deliver their patches in ANY interleaving (`drun` over any label list; every delivery with any
+    foreign writes and faults). As long as `d` itself has not delivered, the patch `d` holds is exactly what
+    `d`'s own invocation wrote on top of what it held before — whatever the others wrote or delivered
+    meanwhile. (Hoisting the `Patch(body=live_body)` out of the loop of `spawn_daemons` breaks exactly this.) -/
+theorem patch_is_own_accumulation (sub : Bool) (d : String) :
+    ∀ (ls : List DLabel) (st : DaemonsState), (∀ o e, DLabel.deliver d o e ∉ ls) →
+      ((drun sub st ls).fields d, (drun sub st ls).fns d) = ownAcc d (st.fields d, st.fns d) ls := by
+  intro ls
+  induction ls with
+  | nil => intro st _; rfl
+  | cons l ls ih =>
+    intro st h
+    have hrest : ∀ o e, DLabel.deliver d o e ∉ ls := fun o e hm => h o e (List.mem_cons_of_mem _ hm)
+    simp only [drun]
+    rw [ih _ hrest]
+    cases l with
+    | write d' upd fns =>
+      simp only [dstep, ownAcc, setAt]
+      by_cases e : d' = d
+      · subst e; simp
+      · have e' : ¬ d = d' := fun x => e x.symm
+        simp [e, e']
+    | deliver d' o env =>
+      have e : d' ≠ d := by
+        intro x; subst x; exact h o env (by simp)
+      have e' : ¬ d = d' := fun x => e x.symm
+      simp only [ownAcc]
+      unfold dstep
+      simp only
+      split
+      · rfl
+      · split <;> simp [setAt, e']
 
-/-- …and once: after an accepted delivery nothing remains, so the next invocation's patch
+/-- …and what a delivery hands to `patch_obj` is that patch: its merge requests carry exactly the dict `d`
+    accumulated (split by the subresource); an accepted delivery (or a vanished object) leaves `d` with an
+    empty patch, a refused one with an empty dict and ALL its fns for `d`'s next delivery. -/
+theorem delivery_sends_own_patch (sub : Bool) (st : DaemonsState) (d : String) (orig : Obj) (env : Env) :
+    ∃ r, (dstep sub st (.deliver d orig env)).2 = some (⟨st.fields d, st.fns d⟩, r) ∧
+      (∀ q ∈ r.reqs,
+        (q.kind = .mergeBody → q.payload = .merge (bodyPart sub (st.fields d))) ∧
+        (q.kind = .mergeStatus → ∃ v, lookup "status" (st.fields d) = some v ∧ q.payload = .merge [("status", v)])) ∧
+      (r.outcome.accepted = true →
+        (dstep sub st (.deliver d orig env)).1.fields d = [] ∧ (dstep sub st (.deliver d orig env)).1.fns d = []) ∧
+      (∀ rem b, r.outcome = .ok (some rem) b →
+        (dstep sub st (.deliver d orig env)).1.fields d = [] ∧ (dstep sub st (.deliver d orig env)).1.fns d = st.fns d) := by
+  unfold dstep
+  simp only
+  by_cases hemp : (Patch.isEmpty ⟨st.fields d, st.fns d⟩) = true
+  · rw [if_pos hemp]
+    have hf : st.fields d = [] ∧ st.fns d = [] := by
+      simpa [Patch.isEmpty, List.isEmpty_iff] using hemp
+    refine ⟨_, rfl, ?_, fun _ => hf, ?_⟩
+    · intro q hq; cases hq
+    · intro rem b h; cases h
+  · rw [if_neg hemp]
+    have hrt := routed_by_subresource sub ⟨st.fields d, st.fns d⟩ orig env st.server
+    cases ho : (patchObj sub ⟨st.fields d, st.fns d⟩ orig env st.server).outcome with
+    | raised =>
+      refine ⟨_, rfl, ?_, ?_, ?_⟩
+      · intro q hq; exact ⟨fun hk => ((hrt q hq).1 hk).1, fun hk => ((hrt q hq).2.1 hk).2⟩
+      · intro h; rw [ho] at h; simp [Outcome.accepted] at h
+      · intro rem b h; rw [ho] at h; cases h
+    | gone =>
+      refine ⟨_, rfl, ?_, ?_, ?_⟩
+      · intro q hq; exact ⟨fun hk => ((hrt q hq).1 hk).1, fun hk => ((hrt q hq).2.1 hk).2⟩
+      · intro _; simp [setAt]
+      · intro rem b h; rw [ho] at h; cases h
+    | ok rem0 b0 =>
+      refine ⟨_, rfl, ?_, ?_, ?_⟩
+      · intro q hq; exact ⟨fun hk => ((hrt q hq).1 hk).1, fun hk => ((hrt q hq).2.1 hk).2⟩
+      · intro h; rw [ho] at h
+        cases rem0 with
+        | none => simp [setAt]
+        | some r => simp [Outcome.accepted] at h
+      · intro rem b h
+        rw [ho] at h
+        injection h with h1 h2
+        subst h1
+        have := (remaining_only_after_refusal sub _ orig env st.server rem b0 ho).1
+        simp [setAt, this]
+
+-- non-vacuity, evaluated by the model: `tb` writes, awaits; `ta` writes and delivers meanwhile; `tb` writes
+-- again and delivers: each delivery carries its own field(s) only, the list holds each token once
+example :
+    let o : Obj := ⟨1, 5, false, [], []⟩
+    let st0 : DaemonsState := ⟨⟨5, 1, some o⟩, fun _ => [], fun _ => []⟩
+    let ls : List DLabel := [
+      .write "tb" (fun _ => [("status", obj [("tb-a", str "B")])]) [.appendStatus "log" (str "B")],
+      .write "ta" (fun _ => [("status", obj [("ta-a", str "A")])]) [.appendStatus "log" (str "A")],
+      .deliver "ta" o Env.quiet,
+      .write "tb" (fun f => mergeKvs f [("status", obj [("tb-b", str "B2")])]) [],
+      .deliver "tb" o Env.quiet]
+    ((drun false st0 ls).server.obj.map (fun x => (lookup "status" x.body).map (fun st => J.beq st
+      (obj [("ta-a", str "A"), ("log", arr [str "A", str "B"]), ("tb-a", str "B"), ("tb-b", str "B2")])))) = some (some true) ∧
+    (∀ o' e, DLabel.deliver "tb" o' e ∉ ls.take 4) := by
+  refine ⟨by decide, ?_⟩
+  intro o' e h
+  simp at h
+
+/-- The same for one daemon in isolation (`daemonCycle`): after an accepted delivery nothing remains, so the next invocation's patch
     (`Patch(remaining_patch, body=body)`) holds only what that next invocation accumulates; a refused one
     keeps ALL its fns (daemons carry the framework's too) for the same daemon's next delivery. -/
 theorem daemon_delivery_not_repeated (sub : Bool) (mem : Option (List Fn)) (c : CycleIn) (s : Server) :
@@ -648,6 +723,91 @@ example :
     (patchObj true ⟨[("status", obj [("a", num 1)])], []⟩ ⟨1, 5, false, [], []⟩
       { slips := fun _ => [.edit [("spec", num 1)], .setFins ["x"]], faults := fun k => if k = .mergeStatus then .error 409 else .none }
       ⟨5, 1, some ⟨1, 5, false, [], []⟩⟩).reqs.map (fun r => (r.kind, r.code)) = [(.mergeStatus, 409)] := by decide
+
+/-! ## what the caller gets back when nothing was sent -/
+
+/-- A non-empty patch can send NOTHING: no dict content, and fns that turn out to be no-ops on the body
+    the patch was computed for (a carried fn whose effect is already there, an `allow` of an absent
+    finalizer, …). Then `patch_obj` makes no request, leaves the server alone and returns `(None, None)`. -/
+theorem noop_patch_sends_nothing (sub : Bool) (fns : List Fn) (orig : Obj) (env : Env) (s : Server)
+    (hf : finsChanged orig (applyFns fns orig) = false) (hs : statusChanged orig (applyFns fns orig) = false) :
+    (patchObj sub ⟨[], fns⟩ orig env s).reqs = [] ∧ (patchObj sub ⟨[], fns⟩ orig env s).server = s ∧
+    (patchObj sub ⟨[], fns⟩ orig env s).outcome.returned = some (none, none) := by
+  have hm0 : stageMerge sub ⟨[], fns⟩ env ⟨s, [], none⟩ = .ok ⟨s, [], none⟩ := by
+    unfold stageMerge stageMergeBody stageMergeStatus bodyPart statusPart
+    cases sub <;> simp [erase, lookup] <;> rfl
+  have hb : jsonBodyPayload sub fns orig = none := by
+    unfold jsonBodyPayload; simp [hf, hs]
+  have hv : jsonStatusValue sub fns orig = none := by
+    unfold jsonStatusValue; simp [hs]
+  have : patchObj sub ⟨[], fns⟩ orig env s = ⟨[], s, .ok none none⟩ := by
+    unfold patchObj
+    rw [hm0]
+    show finish _ (stageJson sub ⟨[], fns⟩ orig env ⟨s, [], none⟩) = _
+    unfold stageJson stageJsonBody
+    simp only [Option.getD_none, hb]
+    show finish _ (stageJsonStatus sub ⟨[], fns⟩ orig orig env ⟨s, [], none⟩) = _
+    unfold stageJsonStatus
+    simp only [hv]
+    rfl
+  rw [this]
+  exact ⟨rfl, rfl, rfl⟩
+
+/-- `(None, None)` is ALSO what a vanished object gives (`silent_404`), and nothing else does: the pair is
+    returned exactly when no request was made at all or the last one was answered 404. The caller
+    (`application.patch_and_check`: `resource_version = None`) cannot tell "nothing was sent, the object is as
+    it was" from "sent, the object is gone". What `application.apply` makes of that (it takes the truthy patch
+    for a change and skips the sleep for the delays) is C03/C06's clause, not C08's; here: what is returned. -/
+theorem returns_none_none_iff (sub : Bool) (p : Patch) (orig : Obj) (env : Env) (s : Server) :
+    (patchObj sub p orig env s).outcome.returned = some (none, none) ↔
+      ((patchObj sub p orig env s).reqs = [] ∨
+       ∃ r, (patchObj sub p orig env s).reqs.getLast? = some r ∧ r.code = 404) := by
+  unfold patchObj
+  have hbody := patch_ok_body sub p orig env s
+  rcases good_inv (good_patch sub p orig env s) with ⟨st, e, hall⟩ | ⟨st, pre, r, e, h1, _, h3⟩
+  · rw [e]
+    have hreq : (finish p (.ok st)).reqs = st.reqs := rfl
+    rw [hreq]
+    constructor
+    · intro h
+      simp only [finish, Outcome.returned, Option.some.injEq, Prod.mk.injEq] at h
+      rcases hbody st e with h0 | h0
+      · exact Or.inl h0.1
+      · rw [h.1] at h0; simp at h0
+    · rintro (h | ⟨r, hl, hc⟩)
+      · rcases hbody st e with h0 | h0
+        · simp [finish, Outcome.returned, h0.2]
+        · exact absurd h h0.1
+      · have hm : r ∈ st.reqs := List.mem_of_getLast? hl
+        have := hall r hm
+        rw [hc] at this; cases this
+  · rw [e]
+    have hreq : (finish p (.error (st, stopOf r))).reqs = st.reqs := (finish_reqs p _).1
+    rw [hreq, h1]
+    unfold stopOf
+    by_cases h404 : r.code = 404
+    · simp [h404, finish, Outcome.returned]
+    · by_cases hj : r.code = 422 ∧ r.kind.isJson = true
+      · rw [if_neg h404, if_pos hj]
+        constructor
+        · intro h
+          simp only [finish, Outcome.returned, Option.some.injEq, Prod.mk.injEq] at h
+          exact absurd h.2 (by simp)
+        · rintro (h | ⟨r', hl, hc⟩)
+          · simp at h
+          · simp at hl; subst hl; exact absurd hc h404
+      · rw [if_neg h404, if_neg hj]
+        constructor
+        · intro h; simp [finish, Outcome.returned] at h
+        · rintro (h | ⟨r', hl, hc⟩)
+          · simp at h
+          · simp at hl; subst hl; exact absurd hc h404
+
+-- non-vacuity: a carried `allow` of a finalizer that is not there (any more) — a non-empty patch, no request
+example :
+    let o : Obj := ⟨1, 5, false, ["other"], []⟩
+    finsChanged o (applyFns [.userFin false "gone"] o) = false ∧ statusChanged o (applyFns [.userFin false "gone"] o) = false ∧
+    (Patch.isEmpty ⟨[], [.userFin false "gone"]⟩) = false := by decide
 
 /-! ## same object -/
 
